@@ -1,19 +1,124 @@
-"""semantic snapshots of glyph objects via our own point pen"""
-class RecPointPen:
-    def __init__(self): self.contours = []; self.components = []; self._cur = None
-    def beginPath(self, identifier=None, **kw): self._cur = []
+"""Deep structural snapshots of UFO fonts (all layers) and designspace documents, for non-mutation checks.
+Numbers keep their type (an int that became a float is a change)."""
+from fontTools.ufoLib import fontInfoAttributesVersion3
+
+
+def freeze(o):
+    if isinstance(o, dict) or hasattr(o, "items") and callable(o.items):
+        return ("dict", tuple(sorted(((repr(k), freeze(v)) for k, v in o.items()))))
+    if isinstance(o, (list, tuple)):
+        return (type(o).__name__ if isinstance(o, (list, tuple)) else "seq", tuple(freeze(v) for v in o))
+    if isinstance(o, (set, frozenset)):
+        return ("set", tuple(sorted(freeze(v) for v in o)))
+    if isinstance(o, bool) or o is None or isinstance(o, (int, float, str, bytes)):
+        return (type(o).__name__, o)
+    if hasattr(o, "__dict__"):
+        return (type(o).__name__, freeze({k: v for k, v in vars(o).items() if not k.startswith("_")}))
+    return (type(o).__name__, repr(o))
+
+
+class _RecPointPen:
+    def __init__(self):
+        self.contours = []
+        self.components = []
+        self._cur = None
+
+    def beginPath(self, identifier=None, **kw):
+        self._cur = [("id", identifier)]
+
     def addPoint(self, pt, segmentType=None, smooth=False, name=None, identifier=None, **kw):
-        self._cur.append((pt[0], pt[1], segmentType))
-    def endPath(self): self.contours.append(self._cur); self._cur = None
+        self._cur.append((freeze(pt[0]), freeze(pt[1]), segmentType, bool(smooth), name, identifier))
+
+    def endPath(self):
+        self.contours.append(tuple(self._cur))
+        self._cur = None
+
     def addComponent(self, baseGlyphName, transformation, identifier=None, **kw):
-        self.components.append({"base": baseGlyphName, "t": tuple(transformation)})
+        self.components.append((baseGlyphName, tuple(freeze(v) for v in transformation), identifier))
 
-def glyph_spec(glyph):
-    pen = RecPointPen(); glyph.drawPoints(pen)
-    return {"name": glyph.name, "width": glyph.width, "height": glyph.height, "unicodes": list(glyph.unicodes),
-            "contours": pen.contours, "components": pen.components,
-            "anchors": [{"name": a.name, "x": a.x, "y": a.y} for a in glyph.anchors],
-            "lib": repr(sorted(dict(glyph.lib).items(), key=repr))}
 
-def glyphset_spec(gs):
-    return {"glyphs": [glyph_spec(gs[n]) for n in gs.keys()]}
+def _anchor(a):
+    return (a.name, freeze(a.x), freeze(a.y), getattr(a, "identifier", None), freeze(getattr(a, "color", None)))
+
+
+def _guideline(g):
+    return tuple(freeze(getattr(g, k, None)) for k in ("x", "y", "angle", "name", "color", "identifier"))
+
+
+def glyph_snapshot(glyph):
+    pen = _RecPointPen()
+    glyph.drawPoints(pen)
+    img = getattr(glyph, "image", None)
+    return (
+        glyph.name,
+        freeze(glyph.width),
+        freeze(glyph.height),
+        tuple(glyph.unicodes),
+        tuple(pen.contours),
+        tuple(pen.components),
+        tuple(_anchor(a) for a in glyph.anchors),
+        freeze(dict(glyph.lib)),
+        getattr(glyph, "note", None),
+        tuple(_guideline(g) for g in (glyph.guidelines or [])),
+        freeze(dict(img)) if img is not None and hasattr(img, "keys") else repr(img) if img is not None else None,
+    )
+
+
+def layer_snapshot(layer):
+    return (
+        layer.name,
+        freeze(dict(layer.lib)),
+        freeze(getattr(layer, "color", None)),
+        tuple(glyph_snapshot(layer[n]) for n in sorted(layer.keys())),
+        tuple(layer.keys()) if not hasattr(layer, "_glyphs") else tuple(layer.keys()),
+    )
+
+
+def font_snapshot(font):
+    """-> dict of named parts, so that a difference can be reported by part"""
+    info = {}
+    for attr in sorted(fontInfoAttributesVersion3):
+        v = getattr(font.info, attr, None)
+        if v is not None:
+            info[attr] = freeze(v)
+    layers = font.layers
+    default = layers.defaultLayer.name
+    snap = {
+        "layerOrder": tuple(l.name for l in layers),
+        "defaultLayer": default,
+        "lib": freeze(dict(font.lib)),
+        "info": freeze(info),
+        "kerning": freeze(dict(font.kerning)),
+        "groups": freeze({k: list(v) for k, v in font.groups.items()}),
+        "features": font.features.text,
+        "glyphOrder": freeze(list(font.glyphOrder)),
+    }
+    for l in layers:
+        snap["layer:" + l.name] = layer_snapshot(l)
+    return snap
+
+
+def diff_parts(a, b):
+    return sorted(k for k in set(a) | set(b) if a.get(k) != b.get(k))
+
+
+def designspace_snapshot(ds):
+    def desc(o, skip=("font",)):
+        return freeze({k: v for k, v in vars(o).items() if k not in skip and not k.startswith("_")})
+
+    snap = {
+        "axes": tuple(desc(a) for a in ds.axes),
+        "axisMappings": tuple(desc(a) for a in getattr(ds, "axisMappings", [])),
+        "sources": tuple(desc(s) for s in ds.sources),
+        "source_font_ids": tuple(id(s.font) for s in ds.sources),
+        "source_list_ids": tuple(id(s) for s in ds.sources),
+        "instances": tuple(desc(i) for i in ds.instances),
+        "rules": tuple(desc(r) for r in ds.rules),
+        "rulesProcessingLast": ds.rulesProcessingLast,
+        "variableFonts": tuple(desc(v) for v in getattr(ds, "variableFonts", [])),
+        "lib": freeze(dict(ds.lib)),
+        "path": ds.path,
+        "filename": getattr(ds, "filename", None),
+        "formatVersion": getattr(ds, "formatVersion", None),
+    }
+    return snap
